@@ -59,7 +59,7 @@ fn cps(s: &str) -> Vec<u32> {
 }
 
 /// token shape (kinds only) and the string tokens of a statement under dialect d
-fn tokens(d: &str, sql: &str) -> (Vec<String>, Vec<Vec<u32>>) {
+pub(crate) fn tokens(d: &str, sql: &str) -> (Vec<String>, Vec<Vec<u32>>) {
     let dia = dialect_of(d);
     match Tokenizer::new(dia.as_ref(), sql).tokenize() {
         Ok(ts) => {
